@@ -189,7 +189,7 @@ def run(ctx):
     r.info("relative_unpack sites: %d" % n_sites)
 
     # ---- R3 reader/writer symmetry
-    r = ctx.rule("R3", "encoder and decoder grammars agree: message formats, consumer-protocol blobs, primitives", 6, "F")
+    r = ctx.rule("R3", "encoder and decoder grammars agree: message formats, consumer-protocol blobs, primitives", 8, "F")
     em = ctx.func(KCQ + "._encode_message")
     dm = ctx.func(KCQ + "._decode_message")
     et, _ = W.encoder_terms(prog, em)
@@ -220,6 +220,19 @@ def run(ctx):
         td = [t for t in td if not (t[0] == "ALT" and not any(b for c, b in t[1]))]
         r.check(W.types_only(te) == W.types_only(td), "%s.%s#symmetry" % (KCQ, d), "encoder %s vs decoder %s" % (W.types_only(te), W.types_only(td)),
                 where(ctx.func("%s.%s" % (KCQ, d)), None), "a member decodes a different assignment than the leader encoded")
+        # ... and accepts everything the encoder can write: the encoder has no limits on counts or lengths, so an explicit
+        # rejection in the decoder may depend on the version field only
+        df_ = ctx.func("%s.%s" % (KCQ, d))
+        cd_ = ctx.cfg(df_)
+        ver_ = [t[2] for t in td if t[0] == "P"][:1]
+        caps = []
+        for n in cd_.nodes:
+            if n.kind == "stmt" and isinstance(n.stmt, ast.Raise):
+                for t, lab in cd_.control_deps_transitive(n.id):
+                    if t.kind == "test" and {v for v in names_in(t.stmt.test) if not v[:1].isupper()} - set(ver_):
+                        caps.append("line %d: `%s`" % (n.lineno, norm(t.stmt.test, 60)))
+        r.check(not caps, "%s.%s#accepts-what-is-encoded" % (KCQ, d), "the decoder rejects blobs the encoder writes: %s" % caps, where(df_, df_.node),
+                "a member cannot decode its own (large) assignment: it rejoins in a loop and its partitions are consumed by nobody")
     import struct
     for wname, rname, size in (("write_short_bytes", "read_short_bytes", 2), ("write_int_string", "read_int_string", 4)):
         wf, rf = ctx.func("_util:" + wname), ctx.func("_util:" + rname)
@@ -246,7 +259,7 @@ def run(ctx):
 
     # ---- R4 codec table + R6 sibling agreement of the per-magic decoders
     r = ctx.rule("R4", "both per-magic decoders handle none/gzip/snappy with the matching decompressor and raise otherwise; "
-                       "they agree on everything except the timestamp", 5, "A")
+                       "they agree on everything except the timestamp; rejection depends on the message's own fields only; fields are delivered as read", 7, "A")
     sibs = []
     for mag in (0, 1):
         nested = marms[mag][0]
@@ -280,6 +293,62 @@ def run(ctx):
     (f0, r0, c0), (f1, r1, c1) = sibs
     r.check([x for x in r1 if x != "relative_unpack"] == r0 and c0 == c1, "%s#siblings-agree" % dm.qname,
             "the two per-magic decoders differ beyond the timestamp: reads %s vs %s; Message args %s vs %s" % (r0, r1, c0, c1), where(dm, dm.node))
+    # a message is rejected for what *it* contains (checksum, format, codec) - never for where it was found: every
+    # `raise` of the message decoder and the decoders nested in it depends only on values read from the message bytes
+    nest_ = [dm] + [g_ for g_ in prog.funcs.values() if g_.qname.startswith(dm.qname + ".")]
+    data_p = [p_ for p_ in dm.params if p_ not in ("self", "cls")][:1]
+    derived = set(data_p)
+    for _round in range(6):
+        for g_ in nest_:
+            for x in walk_body_shallow(g_.body):
+                if isinstance(x, (ast.Assign, ast.AugAssign)) and getattr(x, "value", None) is not None and names_in(x.value) & derived:
+                    for t_ in (x.targets if isinstance(x, ast.Assign) else [x.target]):
+                        derived |= {y.id for y in ast.walk(t_) if isinstance(y, ast.Name)}
+            # the per-format decoders receive the rest of the message as arguments
+            for c_ in calls_in(g_):
+                h_ = prog.resolve_callable(g_, c_.func)
+                if h_ in nest_:
+                    for p_, a_ in zip([p for p in h_.params if p not in ("self", "cls")], c_.args):
+                        if names_in(a_) & derived:
+                            derived.add(p_)
+    bad_r = []
+    n_raise = 0
+    for g_ in nest_:
+        cg_ = ctx.cfg(g_)
+        for n in cg_.nodes:
+            if n.kind == "stmt" and isinstance(n.stmt, ast.Raise):
+                n_raise += 1
+                for t, lab in cg_.control_deps_transitive(n.id):
+                    if t.kind != "test":
+                        continue
+                    foreign = {v for v in names_in(t.stmt.test) if v not in derived and v != "self" and not v[:1].isupper()
+                               and v not in prog.module("kafkacodec").constants and v not in ("zlib", "len", "isinstance", "cls", "struct")}
+                    if foreign:
+                        bad_r.append("%s line %d: `%s` depends on %s" % (g_.name, n.lineno, norm(t.stmt.test, 60), sorted(foreign)))
+    r.check(n_raise >= 2 and not bad_r, "%s#rejects-on-message-fields-only" % dm.qname, "a message is rejected depending on something that is not "
+            "read from its own bytes: %s" % bad_r, where(dm, dm.node), "a valid message (e.g. a compressed set nested in a compressed set) "
+            "fails to decode depending on where it sits")
+    # what was read is what is delivered: a field of the message (key, value, timestamp, ...) is bound by its read and by
+    # nothing else in the decoder - no sentinel is normalised away, no default substituted
+    rebound = []
+    for g_ in nest_:
+        read_names, cursor_names = set(), set()
+        for x in walk_body_shallow(g_.body):
+            if isinstance(x, ast.Assign) and isinstance(x.value, ast.Call) and call_name(x.value) in ("relative_unpack", "read_int_string", "read_short_bytes"):
+                t0 = x.targets[0]
+                if isinstance(t0, ast.Tuple) and len(t0.elts) == 2:
+                    read_names |= {y.id for y in ast.walk(t0.elts[0]) if isinstance(y, ast.Name)}
+                    cursor_names |= {y.id for y in ast.walk(t0.elts[1]) if isinstance(y, ast.Name)}
+        for x in walk_body_shallow(g_.body):
+            if isinstance(x, (ast.Assign, ast.AugAssign)) and not (isinstance(x, ast.Assign) and isinstance(x.value, ast.Call) and call_name(x.value) in (
+                    "relative_unpack", "read_int_string", "read_short_bytes")):
+                for t_ in (x.targets if isinstance(x, ast.Assign) else [x.target]):
+                    for y in ast.walk(t_):
+                        if isinstance(y, ast.Name) and y.id in read_names - cursor_names:
+                            rebound.append("%s line %d: `%s`" % (g_.name, x.lineno, norm(x, 60)))
+    r.check(not rebound, "%s#fields-delivered-as-read" % dm.qname, "a field read from the message is re-bound before it is delivered: %s" % rebound,
+            where(dm, dm.node), "a message whose timestamp is -1 (or whose key is empty, ...) decodes to something else than was encoded; "
+            "re-encoding it writes different bytes")
     gd = ctx.func("codec:gzip_decode")
     ge = ctx.func("codec:gzip_encode")
     rd = [c for c in calls_in(gd) if call_name(c) in ("GzipFile", "decompress", "open")]
